@@ -9,7 +9,7 @@ use crate::fgen;
 use crate::out::{Out, hex};
 
 /// render a shape; returns (text, nesting depth as the property counts it)
-fn render(shape: &[u8], wrapper: u8) -> (String, u32) {
+fn render(shape: &[u8], wrapper: u8, variant: u8) -> (String, u32) {
     // constructs at boolean level: P ( ), N not, F b2i(..)==1, Q any(..) -> array level
     // constructs at array level: p ( ), n not, m mapped call atom
     let mut arr = false;
@@ -48,7 +48,24 @@ fn render(shape: &[u8], wrapper: u8) -> (String, u32) {
             _ => {}
         }
     }
-    let atom = atom.unwrap_or_else(|| if arr { "ai[*] == 1".to_string() } else { "i == 1".to_string() });
+    // what sits at the deepest level: a plain comparison, or — operators are not nesting —
+    // a chain whose precedence climbs (`or` then `and`, `or` then `xor` then `and`), or a call
+    // with an empty argument list (a call IS a nesting level)
+    let after_pn = matches!(shape.last(), Some(b'P') | Some(b'N'));
+    let atom = atom.unwrap_or_else(|| match (arr, variant) {
+        (false, 1) if after_pn => "b or ob and b".to_string(),
+        (false, 2) if after_pn => "b or ob xor b and ob".to_string(),
+        (false, 3) => {
+            depth += 1;
+            "nil0()".to_string()
+        }
+        (true, 1) | (true, 2) => {
+            depth += 1;
+            "(ai[*] == 1 or ai[*] == 2 and ai[*] == 3)".to_string()
+        }
+        (true, _) => "ai[*] == 1".to_string(),
+        _ => "i == 1".to_string(),
+    });
     let core = format!("{open}{atom}{close}");
     let text = match wrapper {
         0 => core,
@@ -106,7 +123,7 @@ pub fn run(cfg: Cfg, out: &mut Out) {
                 continue;
             }
             let wrapper = (idx % 5) as u8;
-            let (text, depth) = render(s, wrapper);
+            let (text, depth) = render(s, wrapper, ((idx / 5) % 4) as u8);
             let op = format!("parse {}", hex(text.as_bytes()));
             let ans = core.apply(&op).unwrap();
             // oracle from the property text: accepted iff nesting <= d
@@ -143,7 +160,8 @@ pub fn run(cfg: Cfg, out: &mut Out) {
                 }
                 s.push(c);
             }
-            let (text, depth) = render(&s, wrapper);
+            let variant = rng.below(4) as u8;
+            let (text, depth) = render(&s, wrapper, variant);
             let op = format!("parse {}", hex(text.as_bytes()));
             let ans = core.apply(&op).unwrap();
             let expect = if depth <= d as u32 { "ok" } else { "err" };
